@@ -29,7 +29,6 @@ from cyverif.taylor import LF, TF, TaylorError, tf_atan, tf_cos, tf_sin
 from cyecca import symbolic
 from cyecca.symbolic import SERIES, SQUARED_SERIES
 
-LEVEL = "exploration"
 EPS = Fraction(0.001)
 N_ORDER = 24
 TRUNC_BOUND = Fraction(1, 10 ** 12)
@@ -251,6 +250,27 @@ def closed_form_traces():
                 continue  # inverse-trig closed form: covered by the truncation lemma against the same closed branch and by C03
             T.append(_Trace(f"C06.{tag}[{key}].closed", [Angle("x", k, 0.1, 1.0)], b, [Ob("closed-form branch = the function named by the key", "entry", "spec")],
                             functions=[symbolic.derive_series], decide=closed, definedness=False, budget_s=120))
+    return T
+
+
+def hint_traces():
+    """real-value facts used by the floating-point analysis to tighten enclosures (never errors): the quaternion that
+    SO3Quat / SE3Quat / SE23Quat exp returns has norm exactly 1 in real arithmetic (closed-form cell; on the Taylor cell
+    the coefficient's real value is by definition the analytic function, the truncation being part of the error term)"""
+    from .groups import alg_sort, make_groups
+    from .c02 import fns_of
+    from .c03 import alg_sort_lt_pi  # rotation angle < pi (the analysis uses the fact on the ball of 1 rad only)
+    G = make_groups()
+    T = []
+    for n, sl in (("SO3Quat", (0, 4)), ("SE3Quat", (3, 7)), ("SE23Quat", (6, 10))):
+        info = G[n]
+
+        def b(y, info=info, sl=sl):
+            X = info.group.algebra.elem(y).exp(info.group)
+            return {"norm": ca.norm_2(X.param[sl[0]:sl[1]]), "one": ca.SX(1)}
+
+        T.append(_Trace(f"C06.hint.unit-quaternion[{n}.exp]", [alg_sort_lt_pi(info)], b, [Ob("norm_2 of the quaternion returned by exp = 1", "norm", "one")],
+                        functions=fns_of(info), decide=cells(series="closed"), budget_s=300, max_paths=64))
     return T
 
 
@@ -583,7 +603,7 @@ def mp_eval(g, nodes, pt, mp):
 
 
 def traces(tier="quick"):
-    return closed_form_traces()
+    return closed_form_traces() + hint_traces()
 
 
 def jobs(tier="quick"):
@@ -617,25 +637,29 @@ def canaries(tier="quick"):
 
 
 def evidence_extra(ev, results, metas):
-    proved = [r for r in results if r["backend"] in ("TAYLOR", "STRUCT", "ALG", "EXACT", "FPERR")]
-    ev["coverage"]["fp_rigorous"] = [{"consumer": r["trace"], "status": r["status"], "detail": r["detail"][:160]} for r in results if r["backend"] == "FPERR"]
-    sweep = [r for r in results if r["backend"] == "SWEEP"]
     c = ev["coverage"]
-    c["evaluations"] = sum(r.get("entries", 0) for r in sweep) + len(proved)
-    c["distinct_nontrivial"] = sum(r.get("entries", 0) for r in sweep)
-    c["rule"] = ("bounded part: one evaluation = one consumer function evaluated in doubles at one point of the grid (34 rotation magnitudes from 0 and denormals to 1 rad incl. "
-                 "both sides of the switches at theta = 1e-3, 0.0316, 0.0632, x 3 directions, random O(1) translations) and compared with a 60-digit evaluation; every point is distinct and "
-                 "non-trivial (it exercises a series coefficient). Rigorous part (counted separately under obligations/discharged): truncation lemmas, switch structure, closed-form identities, exact evaluation at zero")
-    c["rigorous_obligations"] = len(proved)
-    c["rigorous_discharged"] = sum(1 for r in proved if r["status"] == "proved")
-    c["bounded_sweeps"] = len(sweep)
+    c["fp_rigorous"] = [{"consumer": r["trace"], "status": r["status"], "detail": r["detail"][:200]} for r in results if r["backend"] == "FPERR"]
+    sweep = [r for r in results if r["backend"] == "SWEEP"]
+    c["bounded_sweep_points"] = sum(r.get("entries", 0) for r in sweep)
+    c["bounded_sweep_rule"] = ("bounded part (never counted as proved): one evaluation = one consumer function evaluated in doubles at one point of the grid (34 rotation magnitudes from 0 and "
+                               "denormals to 1 rad incl. both sides of the switches at theta = 1e-3, 0.0316, 0.0632, x 3 directions, random O(1) translations) and compared with a 120-digit evaluation")
 
 
+LEVEL = "proof"
+BOUNDED_BACKENDS = ("SWEEP",)
 HARD_TIMEOUT = {"quick": 1200, "thorough": 3600}
 MIN_OBLIGATIONS = {"quick": 100, "thorough": 100}
-TRUSTED = ["lemma L-TAYLOR: Lagrange / alternating-series remainders of sin, cos, atan (stated, not machine-checked)", "own Taylor-form arithmetic cyverif.taylor (exact rationals), canary on every run",
-           "mpmath 60-digit arithmetic as reference for the bounded sweep"]
-ASSUMPTIONS = ["floating-point accuracy clause (<= 1e-9 in doubles, no jump at the switch): PROVED under the standard floating-point model A-FP (U = 2^-53, libm within 1 ulp) for the so(3)/se(3)/se_2(3) Jacobians, inverse Jacobians, the Q block, the SO(3)/SE(3)/SE(2) exponentials, the MRP and SE(2) logarithms, SE3Mrp log and the quaternion/MRP/DCM/Euler conversions (C06.fp[...] obligations; rotation components in the stated box, other inputs in [-1, 1]); for the acos-based logarithms (SO3Quat.log, SO3Dcm.log, SE3Quat.log, SE23 log) and SE_2(3) exp (goes through matrix-to-quaternion) it is decided only by the BOUNDED sweep",
-               "exact real-arithmetic correctness of the closed-form cell is C02-C05; the truncation lemmas bound the real-arithmetic error on the Taylor cell per coefficient (<= 1e-12, actual bounds ~1e-17)",
-               "entries '1/x^2' and '(2 - x cos(x))/(2 x^2)' have true poles at 0 (no finite limit): they are outside the claim and are not consumed by exp/log/Jacobian/conversion code"]
-BOUNDED = ["floating-point accuracy of every consumer: 34 magnitudes x 3 directions per function, doubles vs 60-digit reference"]
+TRUSTED = ["lemma L-TAYLOR: Lagrange / alternating-series remainders of sin, cos, atan (stated, not machine-checked)",
+           "own Taylor-form arithmetic cyverif.taylor (exact rationals), canary on every run",
+           "own interval arithmetic (outward rounding by nextafter) and forward error analysis cyverif.fperr; cross-checked against 60-digit evaluation by ./check selftest",
+           "lemma L-NORMALIZE (stated, not machine-checked): in binary IEEE arithmetic |fl(x / fl(sqrt(fl(... + x^2 + ...))))| <= 1 when the sum neither underflows nor overflows (sqrt(fl(x^2)) rounds to |x|, rounding is monotone)",
+           "mpmath 120-digit arithmetic as reference for the bounded sweep"]
+ASSUMPTIONS = ["A-FP (floating-point model): IEEE-754 binary64, round to nearest, |fl(a op b) - (a op b)| <= 2^-53 |a op b| + 2^-1074 for + - * /, sqrt correctly rounded, libm sin/cos/tan/atan/asin/acos/atan2/pow within 1 ulp; "
+               "CasADi's SX virtual machine and its generated C evaluate the instruction list in order without re-association or fused operations (C09 validates the generated C structurally)",
+               "the accuracy clause is proved for every rotation VECTOR in the ball |w|_2 <= 1 rad (all directions; covered by boxes, adaptively bisected) and translational inputs in [-1, 1]; logarithms and conversions are composed with the "
+               "exponential so that their input ranges over exactly the group elements with rotation angle <= 1 rad",
+               "the 'exact mathematical value' is the real-arithmetic value of the same graph with every series coefficient replaced by the analytic function its key names (closed form = named function: C06 closed-form obligations; "
+               "Taylor side: truncation lemma); that this real-arithmetic function is the Lie-theoretic exp / log / Jacobian is C02-C05 (closed cell) and the Taylor-cell obligations there",
+               "AD clause: value and CasADi AD Jacobian proved finite on the whole ball including zero, except next to the identity for the acos-based logarithms (known finding); CasADi's AD itself is trusted",
+               "entries '1/x^2' and '(2 - x cos(x))/(2 x^2)' have true poles at 0 (no finite limit): SE23.log evaluates '1/x^2' but never uses the result (dead code, checked on the graph); no other consumer exists"]
+BOUNDED = ["floating-point accuracy of every consumer re-checked by evaluation: 34 magnitudes x 3 directions per function, doubles vs 120-digit reference (backend SWEEP; reported under bounded_stand_ins, not counted as proved)"]
